@@ -428,6 +428,9 @@ impl Compressor for HuffmanCompressor {
 /// rANS-based compressor
 pub struct RansCompressor {
     encoder: Rans64Encoder<ParallelX1>,
+    /// Symbol counts the encoder was built from; stored in the header so that
+    /// `decompress` rebuilds exactly the same normalised table
+    frequencies: [u32; 256],
 }
 
 impl RansCompressor {
@@ -461,7 +464,7 @@ impl RansCompressor {
         }
 
         let encoder = Rans64Encoder::<ParallelX1>::new(&frequencies)?;
-        Ok(Self { encoder })
+        Ok(Self { encoder, frequencies })
     }
 }
 
@@ -473,9 +476,10 @@ impl Compressor for RansCompressor {
 
         let mut result = Vec::new();
 
-        // Store frequencies table (4 bytes per frequency)
-        for i in 0..=255u8 {
-            let freq = self.encoder.get_symbol(i).freq;
+        // Store the symbol counts (4 bytes per symbol). The decoder normalises whatever it
+        // reads, and normalisation is not idempotent, so the counts must be the ones the
+        // encoder was built from, not its already normalised table.
+        for freq in self.frequencies.iter() {
             result.extend_from_slice(&freq.to_le_bytes());
         }
 
